@@ -79,6 +79,28 @@ def runPr : List String → PR → List String → List String
       | none => ("BADCASE" :: acc).reverse
     else ("BADCASE" :: acc).reverse
 
+/-- apply `pos:xx` xor-alterations -/
+def applyAlter (d : Bytes) (spec : String) : Option Bytes :=
+  if spec == "-" then some d else
+  (spec.splitOn ",").foldlM (fun (acc : Bytes) item =>
+    match item.splitOn ":" with
+    | [p, m] => do
+      let p ← p.toNat?
+      let m ← bytesOfHex m
+      match m, acc[p]? with
+      | [x], some old => some (acc.set p (old ^^^ x))
+      | _, _ => none
+    | _ => none) d
+
+/-- the logical stream of the damage cases: generated data with the page size (1024) at bytes 40..48 -/
+def dmLogical (pages seed : Nat) : Bytes :=
+  let d := genData (pages * 1020) seed
+  d.take 40 ++ toLE 1024 8 ++ d.drop 48
+
+/-- paged image built by the model's own sealing function -/
+partial def imageOf (d : Bytes) (acc : Bytes) : Bytes :=
+  if d.isEmpty then acc else imageOf (d.drop 1020) (acc ++ sealPage (d.take 1020 ++ zeros 4))
+
 def pagesLine (toks : List String) : String :=
   match toks with
   | "pw" :: ops =>
@@ -95,6 +117,19 @@ def pagesLine (toks : List String) : String :=
       match PR.new ⟨d, 0⟩ ps with
       | .ok r => joinSp ("ok" :: runPr ops r [])
       | _ => "err"
+    | _, _ => "BADCASE"
+  | "dm" :: pages :: seed :: alter :: ops =>
+    match pages.toNat?, seed.toNat? with
+    | some pages, some seed =>
+      match applyAlter (imageOf (dmLogical pages seed) []) alter with
+      | some dev =>
+        let v := match validateCrc ⟨dev, 0⟩ with
+          | some ps => s!"V{ps}"
+          | none => "Verr"
+        match PR.new ⟨dev, 0⟩ 1024 with
+        | .ok r => joinSp (v :: "ok" :: runPr ops r [])
+        | _ => joinSp [v, "err"]
+      | none => "BADCASE"
     | _, _ => "BADCASE"
   | ["crc", hex] =>
     match bytesOfHex hex with
